@@ -199,12 +199,30 @@ def gen_T07():
             dec_handlers.append('strict' if h is None else h.value)
     need(dec_handlers, 'decode_raw_line: no .decode() call found')
     need(not any(isinstance(n, ast.Raise) for n in ast.walk(defs[0])), 'decode_raw_line now raises')
-    # ---- SocketDriver._sendIfMsgs: the encode is where the model puts it (outside the try) ----
+    # ---- SocketDriver._sendIfMsgs: outbuffer is bytes; the messages taken are encoded outside the try ----
     sm = find_def(ts, '_sendIfMsgs', 'SocketDriver')
-    need('self.conn.send(self.outbuffer.encode())' in ast.unparse(sm), '_sendIfMsgs: outbuffer.encode() moved')
-    ch = enclosing_tries(sm, lambda n: is_call(n, 'self.outbuffer.encode'))
-    need(len(ch) == 1 and len(ch[0]) == 1 and [handler_names(h) for h in ch[0][0].handlers] == [['socket.error']],
-         '_sendIfMsgs: the try around conn.send(outbuffer.encode()) changed: the model lets UnicodeEncodeError out')
+    ch = enclosing_tries(sm, lambda n: is_call(n, 'data.encode'))
+    need(len(ch) == 1 and ch[0] == [], '_sendIfMsgs: expected one data.encode() outside every try (the model lets '
+         'UnicodeEncodeError out there)')
+    need("data = ''.join(map(str, msgs))" in ast.unparse(sm) and 'self.outbuffer += data' in ast.unparse(sm),
+         '_sendIfMsgs: the join/encode/append of the taken messages changed')
+    ch = enclosing_tries(sm, lambda n: is_call(n, 'self.conn.send'))
+    need(len(ch) == 1 and len(ch[0]) == 1 and [handler_names(h) for h in ch[0][0].handlers] == [['socket.error']]
+         and ast.unparse(ch[0][0].body[0]) == 'sent = self.conn.send(self.outbuffer)',
+         '_sendIfMsgs: the try around conn.send(self.outbuffer) changed')
+    need(not any(is_call(n, 'self.outbuffer.encode') for n in ast.walk(sm)), '_sendIfMsgs: outbuffer is encoded again')
+    # ---- Irc.takeMsg: _truncateMsg encodes the message (inside the firewalled takeMsg, under no try of its own) ----
+    tr = find_def(ti, '_truncateMsg', 'Irc')
+    encs = [n for n in ast.walk(tr) if isinstance(n, ast.Call) and isinstance(n.func, ast.Attribute) and n.func.attr == 'encode']
+    need(len(encs) <= 1, 'Irc._truncateMsg: more than one encode()')
+    trunc_encodes = False
+    if encs:
+        need(ast.unparse(encs[0]) == "msg_rest_str.encode('utf-8')", 'Irc._truncateMsg: encode call changed: ' + ast.unparse(encs[0]))
+        need(not enclosing_tries(tr, lambda n: n is encs[0])[0], 'Irc._truncateMsg: encode is now inside a try')
+        trunc_encodes = True
+    tk = find_def(ti, 'takeMsg', 'Irc')
+    ch = enclosing_tries(tk, lambda n: is_call(n, 'self._truncateMsg'))
+    need(len(ch) == 1 and ch[0] == [], 'Irc.takeMsg: expected one self._truncateMsg(msg) under no try')
     # ---- CPython facts: str.strip() whitespace, capitalize() of the command ----
     ws = [c for c in range(0x110000) if chr(c).isspace()]
     need(all(len(chr(c).strip()) == 0 for c in ws), 'isspace/strip mismatch')
@@ -230,6 +248,7 @@ def gen_T07():
     out += 'Definition CALLBACK_FIREWALLED : list (list N * bool) :=\n  %s.\n' % clist(
         '(%s, %s)' % (cstr(n), cbool(h)) for n, h, _ in cb_fw)
     out += 'Definition NICK_SETTERS : list (list N) :=\n  %s.\n' % clist(cstr(x) for x in sorted(ns))
+    out += 'Definition TRUNCATE_ENCODES : bool := %s.\n' % cbool(trunc_encodes)
     out += 'Definition DECODE_HANDLERS : list (list N) := %s.\n' % clist(cstr(h) for h in dec_handlers)
     out += 'Definition PY_WS : list N := %s.\n' % clist('%d' % c for c in ws)
     return 'src/drivers/Socket.py src/drivers/__init__.py src/log.py src/irclib.py src/utils/str.py', out
